@@ -201,6 +201,13 @@ def run_case(case, cnt=None, root=None):
             obs0 = meta.observable(o0)
             for j in range(case["k"]):
                 var = replace_defs(prog, srnd)
+                if case["kind"] == "chain" and j < 2:
+                    # the two extreme orders: every definition ahead of the one it refers to (nothing can be evaluated until the
+                    # last line), after the uses (j = 0) or before them (j = 1)
+                    f = prog.files[0]
+                    defs = [st for st in f.stmts if movable(st)][::-1]
+                    rest = [st for st in f.stmts if not movable(st)]
+                    var = apm.Program([apm.SrcFile(f.name, (rest + defs) if j == 0 else (rest[:1] + defs + rest[1:]))], prog.aux, prog.blobs, prog.charset)
                 o, t = meta.assemble_prog(var, root, wall=240)
                 if t == t0 or o.cls == "stall":
                     continue
